@@ -131,14 +131,19 @@ Definition holds (c : case) : bool :=
   | CEptid secret tab calls => eptid_spec_b (map (fun x => (x_call x, x_val x, x_fresh x)) calls)
   end.
 
-(* known-finding classes (consulted only when [holds] is false):
-   1 = Eptid cache key does not determine the arguments (sp ++ "__" ++ user is ambiguous, idp and
-       further arguments are not part of it);
-   2 = a second non-transient identifier for the same (user, requester, qualifier) exists, so
-       which one persistent_nameid answers depends on list order (match_local_id skips only
-       transient identifiers);
-   3 = a persistent identifier is asked for with empty requester AND empty qualifier and the
-       forward entry contains an empty element (left by store() on an emptied entry). *)
+(* finding classes (consulted only when [holds] is false).  Classes 1-3 are REPAIRED in /repo (status
+   "fixed" in findings/C18.json): a case that falls into one of them again is reported as VIOLATION with
+   that input (regression).  Class 4 is open.
+   1 = (331c8f06) two calls share the OLD Eptid cache key sp ++ "__" ++ user without being the same call;
+   2 = (9057a062) a second non-transient identifier for the same (user, requester, qualifier) exists, so
+       which one persistent_nameid answered depended on list order;
+   3 = (afb60e41) a persistent identifier is asked for with empty requester AND empty qualifier (the
+       forward entry could contain an empty element that decodes to an empty NameID);
+   4 = Eptid.make hashes the concatenation of its arguments without separator: the values of FRESH
+       instances already violate the spec (calls that split the same characters differently over user
+       id and extra arguments). *)
+Definition fresh_obs (calls : list eobs) := map (fun x => (x_call x, x_fresh x, x_fresh x)) calls.
+
 Definition cls (c : case) : nat :=
   match c with
   | CIdent cfg users steps final =>
@@ -146,7 +151,9 @@ Definition cls (c : case) : nat :=
       if negb (qualified_b cfg tr) then 3
       else if negb (single_valued_b cfg tr) then 2
       else 0
-  | CEptid secret tab calls => if key_collision_b (map x_call calls) then 1 else 0
+  | CEptid secret tab calls =>
+      if negb (eptid_spec_b (fresh_obs calls)) then 4
+      else if key_collision_b (map x_call calls) then 1 else 0
   | _ => 0
   end.
 
@@ -168,5 +175,6 @@ Definition explain (c : case) :=
   | CDecode s r => (None, None, (true, [opt_eqb nameid_eqb (decode s) r], true, true), true)
   | CEptid secret tab calls =>
       (None, None, (true, [eptid_spec_b (map (fun x => (x_call x, x_val x, x_fresh x)) calls);
-                           key_collision_b (map x_call calls)], true, true), true)
+                           key_collision_b (map x_call calls); eptid_spec_b (fresh_obs calls);
+                           same_extras_b (map x_call calls)], true, true), true)
   end.
